@@ -1,259 +1,18 @@
 package main
 
 import (
-	"fmt"
-	"math/big"
-	"sort"
-
-	"0chain.net/chaincore/state"
-	"0chain.net/chaincore/transaction"
-	"0chain.net/core/encryption"
-	"0chain.net/smartcontract/dbs/event"
-	"0chain.net/smartcontract/minersc"
 	"verif/lib/chainsim"
+	"verif/lib/mon"
 	"verif/lib/world"
 )
 
-type acct struct {
-	Bal   uint64
-	Nonce int64
-	Has   bool
-}
+// The monitors live in verif/lib/mon so that every scenario binary can run them.
+var (
+	supplyMonitor  = mon.SupplyMonitor
+	nonceMonitor   = mon.NonceMonitor
+	balanceMonitor = mon.BalanceMonitor
+	failMonitor    = mon.FailMonitor
+	actionClass    = mon.ActionClass
+)
 
-func accounts(ls []world.Leaf) map[string]acct {
-	m := map[string]acct{}
-	for _, l := range ls {
-		if world.Tap.IsAccount(l.Path) {
-			if st, ok := chainsim.DecodeAccount(l.Value); ok {
-				m[l.Path] = acct{uint64(st.Balance), st.Nonce, true}
-			}
-		}
-	}
-	return m
-}
-
-// effectiveTransfers returns the transfers of the final state context of the transition (those
-// queued after the last EmitError reset), in order, followed by the signed transfers.
-func effectiveTransfers(s *chainsim.Step) (ts []*state.Transfer, sts []*state.SignedTransfer) {
-	for _, r := range s.Tap {
-		switch r.Op {
-		case "emit_error":
-			ts, sts = nil, nil
-		case "add_transfer":
-			t := r.Obj.(*state.Transfer)
-			if encryption.IsHash(t.ToClientID) {
-				ts = append(ts, t)
-			}
-		case "add_signed_transfer":
-			sts = append(sts, r.Obj.(*state.SignedTransfer))
-		}
-	}
-	return
-}
-
-// nonceMonitor (C03)
-func nonceMonitor(s *chainsim.Step, v func(key, what string)) {
-	pre := accounts(s.Pre.Leaves)[s.Txn.ClientID]
-	post := accounts(s.Post.Leaves)[s.Txn.ClientID]
-	cls := actionClass(s.Action.Name)
-	if s.Err == nil {
-		if s.Txn.Nonce != pre.Nonce+1 {
-			v("C03:applied-with-wrong-nonce:"+cls, fmt.Sprintf("txn nonce %d applied while state nonce was %d", s.Txn.Nonce, pre.Nonce))
-		}
-		if post.Nonce != pre.Nonce+1 {
-			v("C03:nonce-not-raised-by-one:"+cls, fmt.Sprintf("state nonce %d -> %d after an applied transaction (status %d)", pre.Nonce, post.Nonce, s.Txn.Status))
-		}
-	} else if len(s.Diff) > 0 {
-		v("C03:rejected-txn-changed-state:"+cls, fmt.Sprintf("%d leaves changed by a rejected transaction (err %v)", len(s.Diff), s.Err))
-	}
-	// no other account's nonce moves
-	for p, a := range accounts(s.Post.Leaves) {
-		if p == s.Txn.ClientID {
-			continue
-		}
-		if b := accounts(s.Pre.Leaves)[p]; b.Nonce != a.Nonce && b.Has {
-			v("C03:foreign-nonce-changed:"+cls, fmt.Sprintf("nonce of %s changed %d -> %d by a transaction of %s", p, b.Nonce, a.Nonce, s.Txn.ClientID))
-		}
-	}
-}
-
-// balanceMonitor (C05): post balances equal the big-int result of applying the effective
-// transfers to the pre balances; if any partial sum leaves [0, 2^64) the transaction must have
-// been rejected with every leaf unchanged.
-func balanceMonitor(s *chainsim.Step, v func(key, what string)) {
-	cls := actionClass(s.Action.Name)
-	pre, post := accounts(s.Pre.Leaves), accounts(s.Post.Leaves)
-	if s.Err != nil {
-		if len(s.Diff) > 0 {
-			v("C05:rejected-txn-changed-state:"+cls, fmt.Sprintf("%d leaves changed although the transaction was rejected (%v)", len(s.Diff), s.Err))
-		}
-		return
-	}
-	ts, sts := effectiveTransfers(s)
-	bal := map[string]*big.Int{}
-	get := func(id string) *big.Int {
-		if b, ok := bal[id]; ok {
-			return b
-		}
-		b := new(big.Int).SetUint64(pre[id].Bal)
-		bal[id] = b
-		return b
-	}
-	max := new(big.Int).Lsh(big.NewInt(1), 64)
-	bad := ""
-	apply := func(from, to string, amt uint64) {
-		if amt == 0 {
-			return
-		}
-		a := new(big.Int).SetUint64(amt)
-		get(from).Sub(get(from), a)
-		if get(from).Sign() < 0 && bad == "" {
-			bad = fmt.Sprintf("transfer of %d overdraws %s", amt, from)
-		}
-		get(to).Add(get(to), a)
-		if get(to).Cmp(max) >= 0 && bad == "" {
-			bad = fmt.Sprintf("transfer of %d overflows %s", amt, to)
-		}
-	}
-	for _, t := range ts {
-		apply(t.ClientID, t.ToClientID, uint64(t.Amount))
-	}
-	for _, t := range sts {
-		apply(t.ClientID, t.ToClientID, uint64(t.Amount))
-	}
-	if bad != "" {
-		v("C05:overdraw-or-overflow-applied:"+cls, "transaction was applied although "+bad)
-		return
-	}
-	ids := map[string]bool{}
-	for id := range pre {
-		ids[id] = true
-	}
-	for id := range post {
-		ids[id] = true
-	}
-	for id := range bal {
-		ids[id] = true
-	}
-	for id := range ids {
-		want := new(big.Int).SetUint64(pre[id].Bal)
-		if b, ok := bal[id]; ok {
-			want = b
-		}
-		if want.Cmp(new(big.Int).SetUint64(post[id].Bal)) != 0 {
-			v("C05:balance-differs-from-transfer-sum:"+cls, fmt.Sprintf("account %s: pre %d, transfers give %s, state has %d", id, pre[id].Bal, want.String(), post[id].Bal))
-		}
-	}
-}
-
-// failMonitor (C02): a chargeable failure leaves only the fee payment, the nonce increment and
-// one error event.
-func failMonitor(s *chainsim.Step, v func(key, what string)) {
-	if s.Err != nil || s.Txn.Status != transaction.TxnError {
-		return
-	}
-	cls := actionClass(s.Action.Name)
-	// was this a LATE failure (the body had already written state / queued transfers)?
-	writes := 0
-	for _, r := range s.Tap {
-		if r.Op == "emit_error" {
-			break
-		}
-		if r.Op == "insert" || r.Op == "delete" || r.Op == "add_transfer" || r.Op == "set_client" {
-			writes++
-		}
-	}
-	if writes > 0 {
-		s.Tag("late-failure:" + cls)
-	} else {
-		s.Tag("early-failure:" + cls)
-	}
-	pre, post := accounts(s.Pre.Leaves), accounts(s.Post.Leaves)
-	fee := uint64(s.Txn.Fee)
-	for _, d := range s.Diff {
-		switch {
-		case d.Path == s.Txn.ClientID && world.Tap.IsAccount(d.Path):
-			a, b := pre[d.Path], post[d.Path]
-			if b.Nonce != a.Nonce+1 || a.Bal-b.Bal != fee || b.Bal > a.Bal {
-				v("C02:sender-change-not-fee-and-nonce:"+cls, fmt.Sprintf("sender %d/%d -> %d/%d with fee %d", a.Bal, a.Nonce, b.Bal, b.Nonce, fee))
-			}
-		case d.Path == minersc.ADDRESS && world.Tap.IsAccount(d.Path):
-			a, b := pre[d.Path], post[d.Path]
-			if b.Bal-a.Bal != fee || b.Nonce != a.Nonce {
-				v("C02:miner-contract-change-not-fee:"+cls, fmt.Sprintf("miner contract wallet %d -> %d with fee %d", a.Bal, b.Bal, fee))
-			}
-		default:
-			what := world.Tap.KeyOf(d.Path)
-			if world.Tap.IsAccount(d.Path) {
-				what = "account " + d.Path
-			}
-			v("C02:failed-call-left-state-change:"+cls, fmt.Sprintf("leaf %s (%s) changed by a failed call: pre %d bytes, post %d bytes", d.Path, what, len(d.Pre), len(d.Post)))
-		}
-	}
-	nErr := 0
-	for _, e := range s.Events {
-		switch {
-		case e.Type == event.TypeError:
-			nErr++
-		case e.Tag == event.TagAddOrOverwriteUser || e.Tag == event.TagUniqueAddress:
-		default:
-			v("C02:failed-call-left-event:"+cls, fmt.Sprintf("event type %v tag %v index %s survived a failed call", e.Type, e.Tag, e.Index))
-		}
-	}
-	if nErr != 1 {
-		v("C02:error-event-count:"+cls, fmt.Sprintf("%d error events, want 1", nErr))
-	}
-}
-
-// debitMonitor (C04): who may lose tokens in a transaction.
-func debitMonitor(w *world.World) chainsim.Monitor {
-	contracts := map[string]bool{}
-	for _, a := range world.SCAddresses {
-		contracts[a] = true
-	}
-	return func(s *chainsim.Step, v func(key, what string)) {
-		if s.Err != nil {
-			return
-		}
-		cls := actionClass(s.Action.Name)
-		pre, post := accounts(s.Pre.Leaves), accounts(s.Post.Leaves)
-		_, sts := effectiveTransfers(s)
-		var ids []string
-		for id := range pre {
-			ids = append(ids, id)
-		}
-		sort.Strings(ids)
-		for _, id := range ids {
-			a, b := pre[id], post[id]
-			if b.Bal >= a.Bal {
-				continue
-			}
-			lost := a.Bal - b.Bal
-			switch {
-			case id == s.Txn.ClientID:
-				if allowed := uint64(s.Txn.Value) + uint64(s.Txn.Fee); lost > allowed {
-					v("C04:sender-debited-beyond-value-plus-fee:"+cls, fmt.Sprintf("sender lost %d, value+fee = %d", lost, allowed))
-				}
-			case id == s.Txn.ToClientID && contracts[id]:
-				// the called contract's own wallet
-			default:
-				ok := false
-				for _, st := range sts {
-					if st.ClientID == id && uint64(st.Amount) == lost && st.VerifySignature(true) == nil {
-						ok = true
-					}
-				}
-				if !ok && s.Txn.FunctionName == "free_allocation_request" {
-					ok = freeStorageDebitOK(w, s, id)
-				}
-				if !ok {
-					v("C04:third-party-debited:"+cls, fmt.Sprintf("account %s lost %d in a transaction of %s to %s", id, lost, s.Txn.ClientID, s.Txn.ToClientID))
-				}
-			}
-		}
-	}
-}
-
-// freeStorageDebitOK is refined by the storage scenario; until a free-storage action exists in
-// an alphabet no transition reaches it.
-var freeStorageDebitOK = func(w *world.World, s *chainsim.Step, id string) bool { return false }
+func debitMonitor(w *world.World) chainsim.Monitor { return mon.DebitMonitor(w) }
